@@ -129,7 +129,12 @@ def pad_sweep(u, case):
                 v = '{s"%s",[{%d,%d,},{7,8,},],{%d,},%d,}' % ('41' * n, n, 1000 + n, n % 256, (n * 3) % 256)
                 case(i, 0, '-', v, 'pad-sweep')
         # KD5<A> { s: String, a: A, t: u8 } with A a vector / boxed slice of zero-copy items: borrowed in ε-copy results
-        if isinstance(t, Adt) and t.d.name == 'KD5' and not t.d.module:
+        if isinstance(t, Adt) and t.d.name == 'KD5' and not t.d.module and not isinstance(t.targs[0], Seq):
+            # A a zero-copy value (a reference in the ε-copy result): every length of the string in front of it
+            for n in range(32):
+                for av in values_for(t.targs[0], random.Random(n), 1):
+                    case(i, 0, '-', '{s"%s",%s,%d,}' % ('41' * n, av, n % 256), 'pad-sweep')
+        if isinstance(t, Adt) and t.d.name == 'KD5' and not t.d.module and isinstance(t.targs[0], Seq):
             el = t.targs[0].t
             if isinstance(el, Adt) and el.d.name == 'KZ11':
                 # gaps up to 16383 bytes in front of a 16384-aligned block: sampled, around the page size and the extremes
@@ -228,6 +233,8 @@ def gen_cases(prop, u, seed, tier, probe=None):
         long_cases(u, case, quick)
         for (i, v, what) in big_values(u):
             case(i, 0, '-', v, 'big-' + what)
+        for kind_, n in (('u8', 1 << 24), ('u8', (1 << 24) - 1), ('u8', (1 << 24) + 1), ('u64', 1 << 21), ('str', 1 << 24), ('str', (1 << 25) + 3)):
+            cs.add('bigfile %s n%d %s -' % (kind_, n, 'dfull' if prop == 'C01' else 'deps'), kind='bigfile', loader='dfull', prefix=None, family='payload-16MiB')
         for i, t in enumerate(u.types):
             for v in values_for(t, rng, nvals):
                 case(i, 0, '-', v, 'roundtrip')
@@ -322,6 +329,12 @@ def gen_cases(prop, u, seed, tier, probe=None):
             for cut in ([1, 8, 15, 16] if quick else [1, 2, 7, 8, 9, 15, 16, 17, 24, 1000, 4096]):
                 for l in (['full', 'map:0', 'map:1'] if quick else ['full', 'map:0', 'map:1', 'map:7', 'mem', 'mmap:1']):
                     cs.add('floadc %d %s %d %s' % (i, l, cut, v), kind='fload', ti=i, loader=l.split(':')[0], cut=-cut, total=2400000, family='big-file-trunc-' + l.replace(':', '-flags'))
+        # payloads of exactly one and two blocks of 16 MiB (and one item more), cut in the header, in the first and in the last
+        # block, one byte before the end
+        for kind_, n in (('u8', 1 << 24), ('u64', 1 << 22), ('str', 1 << 24), ('u8', (1 << 24) + 1)) + (() if quick else (('u8', 1 << 20), ('u64', 1 << 21), ('u8', 3 << 24))):
+            for pre in ('64', '100', 'e1', 'e100', 'e%d' % (1 << 23), 'e%d' % ((1 << 24) - 1), str((1 << 23) + 5)):
+                for l in ('dfull', 'full', 'map:0', 'deps'):
+                    cs.add('bigfile %s n%d %s %s' % (kind_, n, l, pre), kind='bigfile', loader=l.split(':')[0], prefix=pre, family='big-prefix-' + l.split(':')[0])
     elif prop == 'C12':
         plan = []
         for i, t in enumerate(u.types):
@@ -488,7 +501,7 @@ def gen_cases(prop, u, seed, tier, probe=None):
             d = t.d
             targs = '|'.join(x.term() for x in t.targs) or '-'
             cargs = '|'.join(str(int(c)) for c in t.cargs) or '-'
-            cs.add('derive %d %s %s %s' % (i, d.defterm(), targs, cargs), kind='derive', ti=i, family='derive',
+            cs.add('derive %d %s %s %s' % (i, d.defterm(), targs, cargs), kind='derive', ti=i, family='derive', ncp=len(d.cparams), const_first=d.const_first,
                    literal=d.literal_params(), ntp=len(d.tparams), zero=d.copy == 'zero',
                    self_eps=[x.deser_rust() == x.rust() for x in t.targs])
             if d.path() not in seen_defs:
@@ -540,11 +553,28 @@ def gen_cases(prop, u, seed, tier, probe=None):
             if what == 'two-blocks-above-64KiB': continue
             for l, f in [('full', 0), ('mem', 0), ('mmap', 0), ('mmap', 1), ('map', 0), ('map', 1)] + ([] if quick else [('map', 7), ('mmap', 6)]):
                 cs.add('load %d %s %d %s' % (i, l, f, v), kind='load', ti=i, val=v, loader=l, flags=f, family='big-load-' + l)
+        # file lengths around powers of two up to 32 MiB (and payloads of exactly 16 MiB): the values are built by the
+        # harness from the size; the model's answer does not depend on the size
+        for k in ((16, 24) if quick else (12, 16, 20, 22, 24, 25)):
+            for pm in ((-64, -17, -16, -15, -1, 0, 1, 16) if quick else (-64, -63, -17, -16, -15, -1, 0, 1, 15, 16, 17, 63)):
+                L = (1 << k) + pm
+                for l in (['full', 'mem', 'mmap:0', 'map:0'] if quick else ['full', 'mem', 'mmap:0', 'mmap:1', 'map:0', 'map:7']):
+                    kind_ = 'str' if (pm + k) % 3 == 0 else 'u8'
+                    cs.add('bigfile %s L%d %s -' % (kind_, L, l), kind='bigfile', loader=l.split(':')[0], prefix=None, family='file-length-2^%d' % k)
+        for kind_, n in (('u8', 1 << 24), ('u64', 1 << 21), ('str', 1 << 24), ('u64', (1 << 22) + 1)):
+            for l in ('full', 'mem', 'mmap:0', 'map:0'):
+                cs.add('bigfile %s n%d %s -' % (kind_, n, l), kind='bigfile', loader=l.split(':')[0], prefix=None, family='payload-16MiB')
     elif prop == 'C18':
         for i, t in enumerate(u.types):
             for v in values_for(t, rng, nvals):
                 case(i, 0, '-', v, 'plain')
                 cs.add('schema %d %s' % (i, v), kind='schema', ti=i, val=v, family='schema')
+        # the same in the middle of a stream: `serialize_on_field_write` on a position-tracking writer that has already written
+        # k bytes, plain and through a `SchemaWriter` (the recording writer must start where the wrapped one is)
+        for i, t in enumerate(u.types):
+            for v in values_for(t, rng, 2):
+                for k in ([0, 3, 8, 61] if quick else [0, 1, 2, 3, 4, 7, 8, 9, 16, 31, 61, 64, 100]):
+                    cs.add('schemaat %d %d %s' % (i, k, v), kind='schema', ti=i, val=v, base=k, family='schema-at')
         # rows above 64 KiB, one starting beyond byte 65536; an item above 1 MiB
         for (i, v, what) in big_values(u):
             if what == 'stream-above-2MiB' and quick: continue
@@ -584,6 +614,11 @@ def gen_cases(prop, u, seed, tier, probe=None):
             # WouldBlock, TimedOut
             for code in (2, 3, 4):
                 cs.add('wfail %d k=-,ff=%d %s' % (i, code, v), kind='wfail', ti=i, val=v, k=None, total=n, ff=True, family='flush-fail-kind%d' % code)
+            # the same sinks under serialize_with_schema: a failing flush, a failure after k bytes, no failure
+            cs.add('wfail %d k=-,ff=1,sch=1 %s' % (i, v), kind='wfail', ti=i, val=v, k=None, total=n, ff=True, family='schema-flush-fail')
+            cs.add('wfail %d k=-,ff=0,sch=1 %s' % (i, v), kind='wfail', ti=i, val=v, k=None, total=n, ff=False, family='schema-no-fail')
+            for k in sorted(set([0, 8, 29, n // 2, max(n - 1, 0)])):
+                cs.add('wfail %d k=%d,m=%s,ff=0,sch=1 %s' % (i, k, rng.choice(['-', '3']), v), kind='wfail', ti=i, val=v, k=k, total=n, ff=False, family='schema-fail-at-k')
             cs.add('wfail %d devfull %s' % (i, v), kind='wfail', ti=i, val=v, k=0, total=n, ff=False, devfull=True, family='dev-full')
         for k_, t in enumerate(u.slice_elems):
             vt = Seq('vec', t)
